@@ -25,7 +25,7 @@ pub fn run(args: &Args) -> Report {
         texts.push(String::from_utf8_lossy(&unhex(input.split_whitespace().last().unwrap_or("-"))).into_owned());
     } else {
         for d in 0..ndocs {
-            let toks = gen_document(&g, &mut rng, GenOpts { version: [6u8, 6, 5, 3, 1][d % 5], deprecated: d % 2 == 0, opt_prob: [20, 50][d % 2], ..GenOpts::default() });
+            let toks = gen_document(&g, &mut rng, GenOpts { version: [6u8, 6, 5, 3, 1][d % 5], deprecated: d % 2 == 0, opt_prob: [20, 50][d % 2], specials: d % 4 == 1, ..GenOpts::default() });
             let text = render(&toks, &mut rng, [Layout::Canonical, Layout::Wild, Layout::Dense][d % 3], d % 11 == 0);
             if d % 3 == 0 {
                 for m in crate::soup::token_mutations(&text, &mut rng, 4) {
